@@ -84,10 +84,43 @@ def check(prog, run):
     run.rule("R-orientation", "left singular vectors = columns of svd()[0], right singular vectors = rows of svd()[2]; truncation selects vectors, not components", 2)
     run.rule("R-block-scale", "block estimate: weight x products equals that of the full estimate", 1)
     run.rule("R-T-scale", "columns of T are divided by sqrt(nb (nb - 1))", 1)
+    run.rule("R-gram", "the Gramian inverse used in the sensitivity of order n is the inverse of the order-n Gramian (no block of a larger inverse)", 1)
     run.rule("R-var-slot", "Fn_cov[pole, order] = |(U U^T)[0, 0]| of that pole", 2)
     producer_order = producer(prog, run)
     consumers(prog, run, producer_order)
     var_slot(prog, run)
+    gram(prog, run)
+
+
+def gram(prog, run):
+    fi = prog.func(POLES)
+    f = rel(prog.mods[fi.mod].path)
+    pf = astq.PrunedFn(fi, {"calc_unc": True})
+    sites = astq.sliced_inverse_sites(prog, pf)
+    for sub, inv in sites:
+        run.ob("R-gram", fi.qual, "no block of an inverse used as the inverse of a block", False,
+               f"`{astq.src(sub, 50)}` slices `{astq.src(inv, 50)}`: the leading block of the order-ordmax inverse is not the inverse of the order-n Gramian",
+               witness=astq.src(sub, 50), file=f, node=sub)
+    pm = astq.parent_map(pf.node)
+    n = 0
+    for c in ast.walk(pf.node):
+        if isinstance(c, ast.Call) and astq.callee_name(prog, pf, c) in astq.INV_FUNCS and c.args:
+            loop = astq.enclosing(pm, c, (ast.For,))
+            x = astq.expr_at(pf, c, c.args[0])
+            # the order loop is the outermost one; the inverse must be inside it and depend on its variable
+            outer = loop
+            while outer is not None and astq.enclosing(pm, outer, (ast.For,)) is not None:
+                outer = astq.enclosing(pm, outer, (ast.For,))
+            n += 1
+            if outer is None:
+                run.ob("R-gram", fi.qual, "Gramian inverse computed per order", False, f"`{astq.src(c, 60)}` is computed once, outside the loop over model orders", witness=astq.src(c, 50), file=f, node=c)
+                continue
+            var = outer.target.id if isinstance(outer.target, ast.Name) else None
+            dep = any(isinstance(z, ast.Name) and z.id == var for z in ast.walk(x))
+            run.ob("R-gram", fi.qual, "Gramian inverse computed per order", dep, f"`{astq.src(c, 60)}` " + ("depends on" if dep else "does not depend on") + f" the order variable `{var}`",
+                   witness=astq.src(c, 50), file=f, node=c, config=f"inv#{n}")
+    if n == 0 and not sites:
+        run.ob("R-gram", fi.qual, "Gramian inverse", None, "no inverse found in the uncertainty branch of SSI_poles", file=f)
 
 
 def producer(prog, run):
@@ -316,6 +349,7 @@ MUTANTS = [
     ("C17-m07 variance from the off-diagonal element", S, "SSI_poles", "Fn_cov[jj, ii] = abs(cov_fx[0, 0])", "Fn_cov[jj, ii] = abs(cov_fx[0, 1])"),
     ("C17-m08 variance stored transposed", S, "SSI_poles", "Fn_cov[jj, ii] = abs(cov_fx[0, 0])", "Fn_cov[ii, jj] = abs(cov_fx[0, 0])"),
     ("C17-m09 rows of U taken as left singular vectors", S, "SSI_fast", "Uom = U1[:, :ordmax]", "Uom = U1[:ordmax, :].T"),
+    ("C17-m11 Gramian inverse hoisted out of the order loop", S, "SSI_poles", "OO = np.linalg.inv(np.dot(O_p.T, O_p))", "OO = np.linalg.inv(np.dot(Obs[:Obs.shape[0] - Nch, :].T, Obs[:Obs.shape[0] - Nch, :]))[:ii, :ii]"),
     ("C17-m10 block windows of different length", S, "build_hank", "Ym_k = Yp[:, k * Nb:(k + 1) * Nb]", "Ym_k = Yp[:, k * Nb:(k + 1) * Nb + 1]"),
 ]
 REWRITES = [
